@@ -4,7 +4,7 @@
    function, is an unproved obligation (C16_alloc_sites_covered).
      modelled_sites   : functions transcribed at the ownership level in Model/Alloc.v (theorems in Proofs/AllocProofs.v)
      enumerated_sites : everything else: covered by exhaustive single-fault ENUMERATION only (harness/c16_harness.c) —
-                        exploration, not a theorem.  (parse_attr_start: its LITERAL branch is also modelled.) *)
+                        exploration, not a theorem.  (parse_attr_start: its LITERAL branch is also modelled; wbxml_fill_header: its public-id / string-table part.) *)
 From Coq Require Import List String NArith Bool.
 Import ListNotations.
 Local Open Scope string_scope.
@@ -30,7 +30,11 @@ Definition modelled_sites : list (string * string * N) := [
   ("wbxml_lists.c", "wbxml_list_create_real", 1);
   ("wbxml_lists.c", "wbxml_list_insert", 1);
   ("wbxml_parser.c", "parse_element", 1);
-  ("wbxml_tree.c", "wbxml_tree_node_add_attr", 2)
+  ("wbxml_tree.c", "wbxml_tree_node_add_attr", 2);
+  ("wbxml_encoder.c", "wbxml_encode_tag_literal", 2);
+  ("wbxml_encoder.c", "wbxml_encode_attr_start_literal", 2);
+  ("wbxml_encoder.c", "wbxml_fill_header", 2);
+  ("wbxml_encoder.c", "wbxml_strtbl_element_create", 1)
 ].
 
 Definition enumerated_sites : list (string * string * N) := [
@@ -46,18 +50,14 @@ Definition enumerated_sites : list (string * string * N) := [
   ("wbxml_encoder.c", "encoder_duplicate", 1);
   ("wbxml_encoder.c", "parse_cdata", 1);
   ("wbxml_encoder.c", "wbxml_build_result", 2);
-  ("wbxml_encoder.c", "wbxml_encode_attr_start_literal", 2);
   ("wbxml_encoder.c", "wbxml_encode_datetime", 1);
-  ("wbxml_encoder.c", "wbxml_encode_tag_literal", 2);
   ("wbxml_encoder.c", "wbxml_encode_tree", 1);
   ("wbxml_encoder.c", "wbxml_encode_value_element_buffer", 12);
   ("wbxml_encoder.c", "wbxml_encode_wv_datetime_inline", 1);
   ("wbxml_encoder.c", "wbxml_encode_wv_datetime_opaque", 7);
   ("wbxml_encoder.c", "wbxml_encoder_create_real", 2);
   ("wbxml_encoder.c", "wbxml_encoder_encode_node_with_elt_end", 2);
-  ("wbxml_encoder.c", "wbxml_fill_header", 2);
   ("wbxml_encoder.c", "wbxml_strtbl_check_references", 4);
-  ("wbxml_encoder.c", "wbxml_strtbl_element_create", 1);
   ("wbxml_encoder.c", "wbxml_strtbl_initialize", 1);
   ("wbxml_encoder.c", "wbxml_value_element_create", 1);
   ("wbxml_encoder.c", "xml_build_result", 2);
